@@ -7,6 +7,7 @@ begins with the first part less ceil(o/2) symbols).  Bounded: the same clauses a
 functions with real numpy logits, exhaustive over short part lists.
 """
 import itertools
+from specs import lev as _lev
 from vf import core, bounded, selftest
 from vf.core import Failure, sig
 
@@ -50,6 +51,16 @@ def check_merge(le, np, parts, extra):
             bad.append('overlap %d outside [0, min(%d,%d)]' % (o, len(acc), len(t)))
         if (not acc or not t) and o != 0:
             bad.append('overlap %d with an empty part' % o)
+        # independent specification of the detected overlap: the first length whose character error rate (own edit distance) is
+        # minimal, provided that minimum is below 1; otherwise 0 (neighbours without overlap are concatenated unchanged)
+        cers = [(_lev.lev(list(acc[-j:]), list(t[:j])) / j, j) for j in range(1, min(len(acc), len(t)) + 1)]
+        want = 0
+        if cers and min(cers)[0] < 1:
+            want = min(cers)[1]
+        if o != want:
+            bad.append('detected overlap of %r and %r is %d, the first minimiser of the error rate below 1 is %d' % (acc, t, o, want))
+        if not (set(acc) & set(t)) and o != 0:
+            bad.append('parts %r and %r share no character but an overlap of %d is reported' % (acc, t, o))
         cut = len(acc) - (o + 1) // 2
         acc = acc[:cut] + t[o // 2:]
         acc_rows = acc_rows[:cut] + [(pi, r) for r in range(o // 2, len(t))]
